@@ -21,8 +21,10 @@
 (***************************************************************************)
 EXTENDS Connect, Json
 
-VARIABLES l, given, lim
-tvars == <<vars, l, given, lim>>
+VARIABLES l, given, lim,
+          everHeld,   \* connections seen as handshaker or peer in some snapshot
+          susp        \* incoming sockets open at the previous check that the loop had never shown (still pending?)
+tvars == <<vars, l, given, lim, everHeld, susp>>
 
 Trace == ndJsonDeserialize("trace.ndjson")
 Ev == Trace[l]
@@ -38,7 +40,7 @@ LimOf(e) == [inLimit |-> e.inLimit, outLimit |-> e.outLimit, slack |-> e.slack]
 NoScr == [c \in {} |-> [ok |-> FALSE, id |-> -1]]
 
 InitFrom(e) ==
-    /\ cfg = CfgOf(e) /\ lim = LimOf(e) /\ scr = NoScr /\ given = {}
+    /\ cfg = CfgOf(e) /\ lim = LimOf(e) /\ scr = NoScr /\ given = {} /\ everHeld = {} /\ susp = {}
     /\ run = FALSE /\ acc = FALSE /\ completed = FALSE
     /\ queue = {} /\ outHS = {} /\ inHS = {} /\ peers = {} /\ connIPs = {} /\ peerIDs = {} /\ banned = {}
     /\ pend = {} /\ open = {}
@@ -47,26 +49,26 @@ TraceInit == l = 2 /\ Trace[1].ev = "init" /\ InitFrom(Trace[1]) /\ TLCSet(1, 1)
 
 TrReset ==
     /\ Ev.ev = "init"
-    /\ cfg' = CfgOf(Ev) /\ lim' = LimOf(Ev) /\ scr' = NoScr /\ given' = {}
+    /\ cfg' = CfgOf(Ev) /\ lim' = LimOf(Ev) /\ scr' = NoScr /\ given' = {} /\ everHeld' = {} /\ susp' = {}
     /\ run' = FALSE /\ acc' = FALSE /\ completed' = FALSE
     /\ queue' = {} /\ outHS' = {} /\ inHS' = {} /\ peers' = {} /\ connIPs' = {} /\ peerIDs' = {} /\ banned' = {}
     /\ pend' = {} /\ open' = {}
     /\ l' = l + 1
 
-Keep == UNCHANGED <<cfg, core, socks, lim>>
+Keep == UNCHANGED <<cfg, core, socks, lim, everHeld>>
 
 \* the scripted side is about to connect (dir "in") / listens on an address (dir "out"): its abilities
 TrScript ==
     /\ Ev.ev = "script"
     /\ LET c == [dir |-> Ev.dir, ip |-> Ev.ip, key |-> Ev.key]
        IN scr' = [x \in DOMAIN scr \cup {c} |-> IF x = c THEN [ok |-> Ev.ok, id |-> Ev.id] ELSE scr[x]]
-    /\ l' = l + 1 /\ Keep /\ UNCHANGED given
+    /\ l' = l + 1 /\ Keep /\ UNCHANGED <<given, susp>>
 
 \* the user hands addresses to the torrent (AddPeer)
 TrAddPeer ==
     /\ Ev.ev = "addpeer"
     /\ given' = given \cup {Addr(x) : x \in SetOf(Ev.addrs)}
-    /\ l' = l + 1 /\ Keep /\ UNCHANGED scr
+    /\ l' = l + 1 /\ Keep /\ UNCHANGED <<scr, susp>>
 
 ----------------------------------------------------------------------------
 \* one step of Connect explains the observed transition (primed core variables are already bound)
@@ -115,30 +117,37 @@ TrSnap ==
     /\ peers' = {PeerOf(p) : p \in SetOf(Ev.peers)}
     /\ connIPs' = SetOf(Ev.connIPs) /\ peerIDs' = SetOf(Ev.peerIDs) /\ banned' = SetOf(Ev.banned)
     /\ Note(SnapViol(Ev))
-    /\ l' = l + 1 /\ UNCHANGED <<cfg, scr, socks, given, lim>>
+    /\ everHeld' = everHeld \cup Held'
+    /\ l' = l + 1 /\ UNCHANGED <<cfg, scr, socks, given, lim, susp>>
 
-\* @obligation C17.conn.closed / X03.stop.socket : sockets seen open by the scripted side at quiescence
+\* @obligation C17.conn.closed / X03.stop.socket : sockets seen open by the scripted side at quiescence.
+\* A socket that the client held once (handshaker / peer) and holds no more must be closed by now.  An incoming
+\* socket the loop has never shown may still wait in the acceptor (a refusal is not a visible loop event): it is
+\* a violation only if it is still open and still unknown at the NEXT check, or once the torrent is stopped.
 TrCheck ==
     /\ Ev.ev = "check"
     /\ LET oin == {Conn("in", x) : x \in SetOf(Ev.openIn)}
            heldIn == {c \in Held : c.dir = "in"}
+           bad == oin \ heldIn
            outBad == \E x \in SetOf(Ev.openOut) : x[3] > (IF Conn("out", x) \in Held THEN 1 ELSE 0)
-       IN Note(IF ~run /\ (oin # {} \/ Len(Ev.openOut) > 0) THEN "X03.stop.socket"
-               ELSE IF oin \ heldIn # {} THEN "C17.conn.closed.in"
-               ELSE IF outBad THEN "C17.conn.closed.out"
-               ELSE "")
+       IN /\ Note(IF ~run /\ (oin # {} \/ Len(Ev.openOut) > 0) THEN "X03.stop.socket"
+                  ELSE IF bad \cap everHeld # {} THEN "C17.conn.closed.in"
+                  ELSE IF bad \cap susp # {} THEN "C17.conn.closed.in"
+                  ELSE IF outBad THEN "C17.conn.closed.out"
+                  ELSE "")
+          /\ susp' = bad \ everHeld
     /\ l' = l + 1 /\ Keep /\ UNCHANGED <<scr, given>>
 
 \* bounded-time expectations evaluated by the driver (admission of an admissible honest connection)
 TrExpect ==
     /\ Ev.ev = "expect"
     /\ Note(IF Ev.ok THEN "" ELSE "X03.live." \o Ev.what)
-    /\ l' = l + 1 /\ Keep /\ UNCHANGED <<scr, given>>
+    /\ l' = l + 1 /\ Keep /\ UNCHANGED <<scr, given, susp>>
 
 TrProc ==
     /\ Ev.ev = "proc"
     /\ Note(IF Ev.what = "crash" THEN "X03.crash" ELSE IF Ev.what = "hang" THEN "X03.hang" ELSE "")
-    /\ l' = l + 1 /\ Keep /\ UNCHANGED <<scr, given>>
+    /\ l' = l + 1 /\ Keep /\ UNCHANGED <<scr, given, susp>>
 
 TraceNext ==
     /\ l <= Len(Trace)
